@@ -390,6 +390,49 @@ def rule_self(repo, tier):
 
 
 @guarded
+def rule_count(repo, tier):
+    """"at least n OTHER points within the radius": the point itself is taken out of its own neighbour count by position (the count over the
+    full self-distance row minus one, or a masked diagonal), never by a test on the distance value - a distinct point with identical coordinates
+    (merged scans, quantised clouds) has distance 0 too and is one of the others."""
+    res = RuleResult('C18.COUNT', 'nbr_filter / knn_filter: the neighbour count is the number of row entries within the radius with exactly the point '
+                     'itself removed by position (minus one / diagonal mask); the counted predicate has no lower bound on the distance', floor=2)
+    n = 0
+    for q in ('nbr_filter', 'knn_filter'):
+        f = repo.func(GEO, q)
+        for a in ast.walk(f.node):
+            if not (isinstance(a, ast.Assign) and len(a.targets) == 1 and isinstance(a.targets[0], ast.Name)):
+                continue
+            sums = [c for c in ast.walk(a.value) if isinstance(c, ast.Call) and (dotted(c.func) or '').split('.')[-1] in ('sum', 'count_nonzero') and
+                    (c.args or isinstance(c.func, ast.Attribute))]
+            sums = [c for c in sums if any(isinstance(x, ast.Compare) for x in ast.walk(c)) and
+                    any((dotted(y) or '') == 'radius' for x in ast.walk(c) if isinstance(x, ast.Compare) for y in ast.walk(x))]
+            if not sums:
+                continue
+            c = sums[0]
+            n += 1
+            cmps = [x for x in ast.walk(c) if isinstance(x, ast.Compare)]
+            lower = [x for x in cmps if (isinstance(x.ops[0], (ast.Gt, ast.GtE, ast.NotEq)) and isinstance(x.comparators[0], ast.Constant)) or
+                     (isinstance(x.ops[0], (ast.Lt, ast.LtE, ast.NotEq)) and isinstance(x.left, ast.Constant))]
+            v = a.value
+            minus_one = isinstance(v, ast.BinOp) and isinstance(v.op, ast.Sub) and isinstance(v.right, ast.Constant) and v.right.value == 1 and \
+                any(x is c for x in ast.walk(v.left))
+            diag = any(isinstance(x, ast.Call) and (dotted(x.func) or '').split('.')[-1] in ('eye', 'fill_diagonal_', 'diag_embed') for x in ast.walk(v))
+            ok = not lower and (minus_one != diag)
+            res.inst({'function': f.fq, 'count': src(v)[:80], 'lower bound on the distance': bool(lower), 'self removed by': 'minus one' if minus_one else 'diagonal' if diag else None,
+                      'ok': ok}, (f.fq, src(v)))
+            if lower:
+                res.add(Finding('C18.COUNT', f, '`%s` excludes entries by a test on the distance value (`%s`): every other point at distance 0 (identical '
+                                'coordinates) is dropped from the count together with the point itself' % (src(v)[:70], src(lower[0])[:30]), node=a))
+            elif not (minus_one or diag):
+                res.add(Finding('C18.COUNT', f, '`%s` counts the point itself among its neighbours (neither minus one nor a masked diagonal)' % src(v)[:70], node=a))
+            elif minus_one and diag:
+                res.add(Finding('C18.COUNT', f, '`%s` removes the point itself twice (diagonal mask and minus one)' % src(v)[:70], node=a))
+    if n < 2:
+        raise AnalysisError('C18.COUNT: found %d radius counts in nbr_filter / knn_filter, expected 2' % n)
+    return res
+
+
+@guarded
 def rule_rankidx(repo, tier):
     """A tensor used to index the point axis keeps its rank whatever the number of points / occupied voxels is.  An argument-less
     `.squeeze()` removes EVERY singleton axis; applied to an index vector it turns a one-element index into a 0-dim tensor, and indexing with a
@@ -435,4 +478,4 @@ def rule_memo18(repo, tier):
 
 
 def rules(repo, tier):
-    return [rule_idx(repo, tier), rule_sign(repo, tier), rule_fwd(repo, tier), rule_memo18(repo, tier), rule_self(repo, tier), rule_rankidx(repo, tier)]
+    return [rule_idx(repo, tier), rule_sign(repo, tier), rule_fwd(repo, tier), rule_memo18(repo, tier), rule_self(repo, tier), rule_rankidx(repo, tier), rule_count(repo, tier)]
